@@ -22,7 +22,8 @@ before and after each call, and from the trace:
            code before the first yield of a generator function), i.e. while the scheduler is still entering its doers.
   order    (clause of C03's statement, "within a cycle, due doers run at most once each, in enter order", which makes no
            exception for doers added at run time; only C06's programs have the calls): within a cycle the doers of one
-           scheduler recur in the order in which their current lifecycles were entered.
+           scheduler recur in the order in which their current lifecycles were entered (= the order of their enter
+           events, also for a doer that was entered from inside another doer's enter context: own signature).
 """
 from vlib import sched, schedgen
 from vlib.core import Result
@@ -39,7 +40,9 @@ ASSUMPTIONS = ["calls are made only on the scheduler that is currently running t
                "re-adding a doer that is still running (after removing itself, or one that an extend() call still in "
                "progress is about to enter); removing, from an enter context, a doer whose own extend() call triggered "
                "that enter; a pool doer's own enter context making a call on the scheduler that is just adding it",
-               "a pair of doers of which one was added from the other's enter context (nested enters) is not ordered"]
+               "a pair of doers of which one was added from the other's enter context (nested enters) is ordered by the start "
+               "of their enters (the order of the enter events)",
+               "a doer that is restarted (remove then extend in one context) is a leaf whose own enter context makes no call"]
 
 
 def dedupe(xs):
@@ -268,8 +271,10 @@ def recur_order(run, r):
                 hostof[lk] = sched.lifecycle_host(run, name, cur[name])
             key = (hostof[lk], cyc)
             prev = last.get(key)
-            if prev is not None and prev[1] > cur[name] and not sched.nested_enter(run, cur[name], name, prev[1]):
-                r.fail("C06/recur-order-after-extend" if extended else "C06/recur-order",
+            if prev is not None and prev[1] > cur[name]:
+                r.fail("C06/recur-order-of-doer-entered-from-an-enter-context"
+                       if sched.nested_enter(run, cur[name], name, prev[1]) else
+                       "C06/recur-order-after-extend" if extended else "C06/recur-order",
                        "cycle %d under %s: %s (entered at event %d) recurred before %s (entered earlier, at event %d)" % (
                            cyc, key[0], prev[0], prev[1], name, cur[name]))
                 return
